@@ -297,6 +297,30 @@ def tojson_back(x):
     return tuple(tojson_back(i) for i in x) if isinstance(x, list) else x
 
 
+def in_child(fn):
+    """fn() evaluated in a forked child of this process; the (picklable) result comes back through a pipe"""
+    import pickle
+    r, w = os.pipe()
+    pid = os.fork()
+    if pid == 0:
+        code = 0
+        try:
+            os.close(r)
+            with os.fdopen(w, 'wb') as fh:
+                pickle.dump(fn(), fh)
+        except BaseException:
+            code = 1
+        finally:
+            os._exit(code)
+    os.close(w)
+    with os.fdopen(r, 'rb') as fh:
+        data = fh.read()
+    os.waitpid(pid, 0)
+    if not data:
+        raise RuntimeError('child produced no result')
+    return pickle.loads(data)
+
+
 class CHECK(Check):
     pid = 'C20'
     fork_per_case = True     # every case starts from the clean state this process has after setup (imports only)
@@ -324,6 +348,25 @@ class CHECK(Check):
             keep = histories.select_quick(self.hcorpus, self.href)
             self.hcorpus = [self.hcorpus[i] for i in keep]
             self.href = [self.href[i] for i in keep]
+        # texts for the order differential: all one-token insertions / replacements / deletions / truncations at every between-token
+        # state (k=1) of each dialect, in the explorer's order (cases of one parser state are adjacent), one text per line
+        self.order_texts = {}
+        for d in gsx.DIALECTS:
+            m = gsx.Model(d)
+            f = gsx.Families(m, 1)
+            texts = []
+            seen_t = set()
+            for kind, sent in f.s1():
+                if any(t not in m.lexeme for t in sent):
+                    continue
+                t = m.text_of(sent)
+                if t not in seen_t:
+                    seen_t.add(t)
+                    texts.append(t)
+            if tier != 'thorough':
+                # quick: replacements and truncations only for the two small grammars, every third state block of the large one
+                texts = texts if d != 'mindsdb' else [t for i, t in enumerate(texts) if (i // 200) % 3 == 0]
+            self.order_texts[d] = texts
         self.rops = histories.render_ops()
         self.rref = histories.render_references(self.rops)
         # warm imports (SLY builds the tables at import time; that must not run under the scheduler)
@@ -360,6 +403,19 @@ class CHECK(Check):
             out.append(('pairs', 'reuse', i))
         for i in range(len(self.rops)):
             out.append(('rpairs', i))
+        # read-only calls on the caller's tree (printing, comparing, copying, walking) before it is planned / rendered
+        for i in range(len(self.hcorpus)):
+            out.append(('readonly', 'plan', i))
+        for i in range(len(self.rops)):
+            out.append(('readonly', 'render', i))
+        # order differential over the one-token deviations of the grammar explorer: a slice of texts is parsed front to back in one
+        # fresh process and back to front in another; every text must be answered alike (a result that depends on which statements
+        # the process saw before - e.g. an answer memoised under too coarse a key - differs between the two orders)
+        for d in self.order_texts:
+            n = len(self.order_texts[d])
+            step = 600
+            for lo in range(0, n, step):
+                out.append(('order', d, lo, min(n, lo + step)))
         return out
 
     # ------------------------------------------------------------------ schedules
@@ -377,6 +433,92 @@ class CHECK(Check):
             return self.run_pairs(res, case[1], case[2])
         if case[0] == 'rpairs':
             return self.run_rpairs(res, case[1])
+        if case[0] == 'order':
+            return self.run_order(res, case[1], case[2], case[3])
+        if case[0] == 'readonly':
+            return self.run_readonly(res, case[1], case[2])
+
+    def run_readonly(self, res, what, i):
+        """the result of planning / rendering a tree must not depend on read-only calls made on that tree before"""
+        from vf import histories
+        from mindsdb_sql import parse_sql
+        from mindsdb_sql.planner import plan_query
+        from mindsdb_sql.planner.utils import query_traversal
+        readers = [('str', str), ('repr', repr), ('to_tree', lambda t: t.to_tree()), ('eq_self', lambda t: t == t), ('eq_copy', lambda t: t == copy.deepcopy(t)),
+                   ('copy', lambda t: t.copy()), ('to_string', lambda t: t.to_string()), ('walk', lambda t: query_traversal(t, lambda n, **kw: None)),
+                   ('str_then_copy_planned', None)]
+        sql = self.hcorpus[i] if what == 'plan' else self.rops[i][1]
+        res.key(('readonly', what, i))
+        for name, reader in readers:
+            try:
+                tree = parse_sql(sql)
+            except Exception:
+                res.count('readonly_not_parsed')
+                return res
+            try:
+                if reader is None:
+                    str(tree)
+                    tree = tree.copy()
+                else:
+                    reader(tree)
+            except Exception:
+                res.count('reader_raised')
+                continue
+            if what == 'plan':
+                try:
+                    plan = plan_query(tree, **histories.rich_catalog())
+                    obs = ('plan', histories.canon(repr(plan.steps)))
+                except Exception as e:
+                    obs = ('exc', type(e).__name__, str(e)[:200])
+                want = self.href[i]
+            else:
+                try:
+                    obs = ('sql', histories.canon(histories.make_render(self.rops[i][0]).get_string(tree, with_failback=True)))
+                except Exception as e:
+                    obs = ('exc', type(e).__name__, str(e)[:200])
+                want = tuple(self.rref[i])
+            res.count('readonly_histories')
+            if tuple(obs) != tuple(want):
+                res.violation(f'read-only-call-before-changes-result|{what}|{name}',
+                              f'{sql!r}: after {name}(tree) the {what} result is {str(obs)[:300]!r} instead of {str(want)[:300]!r}')
+                break
+        return res
+
+    def run_order(self, res, d, lo, hi):
+        texts = self.order_texts[d][lo:hi]
+
+        def observe_all(order):
+            out = {}
+            for i in order:
+                o = obs_parse(texts[i], d)
+                out[i] = hashlib.blake2b(repr(o).encode(), digest_size=8).hexdigest()
+            return out
+
+        fwd = in_child(lambda: observe_all(range(len(texts))))
+        bwd = in_child(lambda: observe_all(range(len(texts) - 1, -1, -1)))
+        res.count('order_differential_parses', 2 * len(texts))
+        res.key(('order', d, lo))
+        diff = [i for i in range(len(texts)) if fwd.get(i) != bwd.get(i)]
+        if diff:
+            i = diff[0]
+            # find a short witness: the text alone vs after one other text of the slice
+            alone = in_child(lambda: obs_parse(texts[i], d))
+            culprit = None
+            for j in range(len(texts)):
+                if j == i:
+                    continue
+                got = in_child(lambda: (obs_parse(texts[j], d), obs_parse(texts[i], d))[1])
+                if got != alone:
+                    culprit = (j, got)
+                    break
+            kind = alone[0] if alone[0] != 'exc' else alone[1]
+            if culprit is not None:
+                res.violation(f'order-of-earlier-parses-changes-result|{d}|{kind}',
+                              f'{len(diff)} of {len(texts)} texts are answered differently front-to-back and back-to-front; e.g. after parsing {texts[culprit[0]]!r} the call parse_sql({texts[i]!r}, {d!r}) gives {str(culprit[1])[:300]!r}, alone it gives {str(alone)[:300]!r}')
+            else:
+                res.violation(f'order-of-earlier-parses-changes-result|{d}|{kind}',
+                              f'{len(diff)} of {len(texts)} texts (slice {lo}:{hi}) are answered differently when the slice is parsed front-to-back and back-to-front, e.g. {texts[i]!r}')
+        return res
 
     def run_rpairs(self, res, i):
         """all two-step renderer histories with first = rops[i]: new renderer objects for both calls (by dialect name and by dialect class), and,
@@ -615,13 +757,13 @@ class CHECK(Check):
                 'schedules_explored': c.get('schedules', 0), 'max_scheduling_points_in_one_execution': max(agg['cover'].get('max_points', {0})),
                 'distinct_thread_outcomes': len(agg['cover'].get('distinct_outcomes', ())),
                 'history_call_pairs_covered': len(agg['cover'].get('history_edges', ())),
-                'two_step_histories_over_planner_corpus': c.get('pair_histories', 0), 'two_step_renderer_histories': c.get('render_pair_histories', 0), 'planner_corpus_size': len(self.hcorpus),
+                'order_differential_parses': c.get('order_differential_parses', 0), 'two_step_histories_over_planner_corpus': c.get('pair_histories', 0), 'two_step_renderer_histories': c.get('render_pair_histories', 0), 'planner_corpus_size': len(self.hcorpus),
                 'globals_changed_by_calls': sorted(str(x) for x in agg['cover'].get('globals_changed_by_a_call', ()))[:40],
                 'hash_seed_sweep_is_exhaustive': False, 'free_running_pass_is_sampling': True,
                 'lazy_globals_restored_before_every_schedule': getattr(self, 'nsnap', 0), 'operations': list(OPS), 'pairs': [list(p) for p in PAIRS],
                 'rule': 'schedules: every pair x all schedules with <= 1 preemption at call granularity, LINE granularity for 9 pairs, bound 2 at coarse granularity for 3 '
                         'pairs (thorough: bound 2 for all pairs, triples at bound 1); histories: all call sequences of depth 3 (thorough 4) over 21 operations with a shared '
-                        'environment; seeds 0..3 (thorough 0..31 + 2 random); all ordered pairs of a planner corpus as process histories and on one reused QueryPlanner; states = distinct global-state digests + distinct thread outcome vectors'}
+                        'environment; seeds 0..3 (thorough 0..31 + 2 random); all ordered pairs of a planner corpus as process histories and on one reused QueryPlanner; read-only calls (str, repr, to_tree, ==, copy, walk) on the tree before planning / rendering it; order differential: the one-token deviations of every parser state (all for sqlite / mysql, every third block of 200 for mindsdb in quick) parsed front-to-back and back-to-front in two fresh processes; states = distinct global-state digests + distinct thread outcome vectors'}
 
     def describe_case(self, case):
         return [str(x) for x in case]
